@@ -20,7 +20,20 @@ def problem(sig, what):
     out["problems"].append({"signature": sig, "what": what})
 
 
-firsts = sys.argv[1:]
+argv = sys.argv[1:]
+WRITE = READ = FAMILY = None
+if "--write" in argv:
+    WRITE = argv[argv.index("--write") + 1]
+    del argv[argv.index("--write") : argv.index("--write") + 2]
+if "--read" in argv:
+    READ = argv[argv.index("--read") + 1]
+    del argv[argv.index("--read") : argv.index("--read") + 2]
+if "--family" in argv:
+    FAMILY = argv[argv.index("--family") + 1]
+    del argv[argv.index("--family") : argv.index("--family") + 2]
+firsts = argv
+out["first"] = firsts
+ENTRIES = []
 ok = True
 for m in firsts:
     try:
@@ -32,6 +45,37 @@ for m in firsts:
         ok = False
         break
 if not ok:
+    print(json.dumps(out))
+    sys.exit(0)
+
+if READ:
+    # reader mode: only the first import(s) and the sub-package that defines the family have been
+    # imported; everything needed to rebuild the family's objects must be registered by that
+    from ase.io.jsonio import decode as _decode
+    from ase.io.jsonio import encode as _encode
+
+    try:
+        importlib.import_module(f"quansino.{FAMILY}")
+    except Exception as e:  # noqa: BLE001
+        out["import_errors"].append({"module": f"quansino.{FAMILY}", "error": f"{type(e).__name__}: {e}"[:300], "circular": "circular" in str(e)})
+        print(json.dumps(out))
+        sys.exit(0)
+    from quansino.registry import get_class as _get_class
+
+    for ent in json.load(open(READ)):
+        if ent["family"] != FAMILY:
+            continue
+        out["roundtrips"] += 1
+        try:
+            d = _decode(ent["text"])
+            cls = _get_class(d["name"])
+            obj = cls.from_dict(d)
+            if _encode(obj.to_dict()) != ent["text"]:
+                problem(f"C08/{ent['cls']}/rebuilt-after-partial-import/dictionary-differs", f"{ent['tag']} after importing only {firsts} + quansino.{FAMILY}")
+            if hasattr(obj, "close"):
+                obj.close()
+        except Exception as e:  # noqa: BLE001
+            problem(f"C08/{ent['cls']}/rebuilt-after-partial-import/exception:{type(e).__name__}", f"{ent['tag']} after importing only {firsts} + quansino.{FAMILY}: {e}"[:300])
     print(json.dumps(out))
     sys.exit(0)
 
@@ -197,6 +241,7 @@ def roundtrip(cls, obj, tag, tunables):
     except Exception as e:  # noqa: BLE001
         problem(f"C08/{cname}/to_dict-or-json/exception:{type(e).__name__}", f"{tag}: {e}"[:300])
         return
+    ENTRIES.append({"family": cls.__module__.split(".")[1], "cls": cname, "tag": tag, "text": text})
     try:
         reg = get_class(d2["name"])
     except Exception as e:  # noqa: BLE001
@@ -334,7 +379,9 @@ for kind in ("MonteCarlo", "Canonical", "HamiltonianCanonical", "Isobaric", "Iso
             sim.run(2)  # advances the generator and the step counter
             want = sim_settings(sim)
             if route == "to_dict":
-                data = decode(encode(sim.to_dict()))
+                text = encode(sim.to_dict())
+                ENTRIES.append({"family": "mc", "cls": kind, "tag": f"simulation {kind}", "text": text})
+                data = decode(text)
             else:
                 import io
 
@@ -359,4 +406,6 @@ for kind in ("MonteCarlo", "Canonical", "HamiltonianCanonical", "Isobaric", "Iso
             where = next((f"{fr.filename.split('/quansino/')[-1]}:{fr.name}" for fr in reversed(tb) if "/quansino/" in fr.filename), "")
             problem(f"C08/simulation/{kind}/{route}/exception:{type(e).__name__}@{where}", f"{tag}: {e}"[:300])
 
+if WRITE:
+    json.dump(ENTRIES, open(WRITE, "w"))
 print(json.dumps(out))
